@@ -34,12 +34,13 @@ def observe_env(fn, start, cwd):
     return dict(found=True, sub=list(sub))
 
 
-def run(cmd, cwd):
+def run(cmd, cwd, enc=None):
+    """enc: the (strict) encoding of the command's stdout, as PYTHONIOENCODING sets it"""
     env = dict(os.environ)
-    env['PYTHONIOENCODING'] = 'utf-8'
+    env['PYTHONIOENCODING'] = enc or 'utf-8'
     env.pop('COLUMNS', None)
     p = subprocess.run([sys.executable] + cmd, cwd=cwd, env=env, stdout=subprocess.PIPE, stderr=subprocess.PIPE, timeout=120)
-    return dict(rc=p.returncode, out=p.stdout.decode('utf-8', 'replace'), err=p.stderr.decode('utf-8', 'replace')[-1500:])
+    return dict(rc=p.returncode, out=p.stdout.decode(enc or 'utf-8', 'replace'), err=p.stderr.decode(enc or 'utf-8', 'replace')[-1500:])
 
 
 def phase1(sess, tmp):
@@ -55,7 +56,7 @@ def phase1(sess, tmp):
         with open(path, 'w', encoding='utf-8', newline='') as f:
             f.write(text)
     lprof = os.path.join(d, 'out.lprof')
-    k = run(['-m', 'kernprof', '-l', '-v'] + sess['kernprof_args'] + ['-o', 'out.lprof', sess['script']], d)
+    k = run(['-m', 'kernprof', '-l', '-v'] + sess['kernprof_args'] + ['-o', 'out.lprof', sess['script']], d, sess.get('encoding'))
     res = dict(kernprof=k, stats=None, unit=None, viewer=None)
     if not os.path.exists(lprof):
         return res
@@ -63,7 +64,7 @@ def phase1(sess, tmp):
     res['unit'] = ls.unit
     res['stats'] = [[fn, ln, name, [list(t) for t in tm]] for (fn, ln, name), tm in ls.timings.items()]
     res['types_ok'] = all(type(x) is int for _, _, _, tm in res['stats'] for t in tm for x in t)
-    res['viewer'] = run(['-m', 'line_profiler'] + sess['viewer_args'] + [lprof], v)
+    res['viewer'] = run(['-m', 'line_profiler'] + sess['viewer_args'] + [lprof], v, sess.get('encoding'))
     return res
 
 
